@@ -1,4 +1,4 @@
-import XdslProofs.Lemmas.DeclFormatMain
+import XdslProofs.Lemmas.DeclFormatAcc
 /-!
 # C05 — custom assembly formats round-trip (declarative-format core)
 
@@ -8,19 +8,26 @@ or parses to a different operation, violates the property.*
 
 The theorems are about `Xdsl.DeclFormat` (`XdslModel/DeclFormat.lean`), the token-level model of
 `FormatProgram.print/parse` WITH the C05 repairs.  PARTIAL with respect to the property's sentence:
-hand-written `print`/`parse` overrides and custom directives are modelled by nothing; the aggregate
-directives `operands`, `type(operands)`, `type(results)`, `functional-type` are executable in the
-model but excluded here by `fragD`; nested optional groups are not modelled.
+hand-written `print`/`parse` overrides and custom directives are modelled by nothing; nested optional
+groups are not modelled; the aggregate directives `operands`, `type(operands)`, `type(results)`,
+`functional-type(…)` are covered at top level (not inside optional groups) for definitions with at
+most one optional/variadic operand resp. result (`wfA`; the `SameVariadic…Size` options are not
+modelled).
 
 Hypotheses of the round-trip theorems, all explicit:
 * `wfD fmt K` — decidable well-formedness of the format against the classes `K` of the token that
   may follow the operation: the side conditions of the format compiler plus look-ahead conditions
-  it does not check (`okFollow`, `untaken-conflict`, `okTop`);
-* `ValidD op fmt` — the instance has the cardinalities its directives' flavours promise ("verifies")
-  and is consistent with the optional groups (`GroupCons`: what an untaken branch would have printed
-  is empty / default — the op author's verifier obligation);
+  it does not check (`okFollow`, `untaken-conflict`, `okTop`); it implies `fragD` (no aggregate
+  directive inside an optional group);
+* `wfA D fmt` — an aggregate directive is used only where the flat list determines the segments
+  (`create_operands_directive` / `create_results_directive`: "… is ambiguous with multiple variadic …");
+  implied by `accD D fmt`, the binding checks of the format compiler;
+* `ValidD D op fmt` — the instance has the cardinalities its directives' flavours / the definitions
+  promise ("verifies") and is consistent with the optional groups (`GroupCons`: what an untaken branch
+  would have printed is empty / default — the op author's verifier obligation);
 * `CoversSlots`, `CoversDicts` — every operand/type/region/successor/dictionary entry is reachable
-  from the format (what `FormatParser.verify_*` checks), dictionaries have no duplicate keys;
+  from the format (what `FormatParser.verify_*` checks; `coversSlots_of_accD`), dictionaries have no
+  duplicate keys;
 * `clsHd rest ∈ K` — the token after the operation is of a class the format was checked against.
 -/
 namespace Xdsl.DeclFormat
@@ -29,22 +36,23 @@ namespace Xdsl.DeclFormat
 any admissible continuation, consumes exactly the printed tokens.  (Stage 1; the state reached is
 `replayD`, the slot-by-slot copy of the operation.) -/
 theorem decl_parse_consumes (D : Defs) (fmt : List Dir) (op : OpInst) (K : List Cls) (rest : List Tok)
-    (st : PState) (hwf : wfD fmt K = true) (hfrag : fragD fmt = true) (hv : ValidD op fmt)
+    (st : PState) (hwf : wfD fmt K = true) (ha : wfA D fmt = true) (hv : ValidD D op fmt)
     (hK : clsHd rest ∈ K) :
     ∃ st', parseD D fmt (printD D fmt op ++ rest) st = some (st', rest) :=
-  ⟨_, parseD_printD D op fmt K rest st hwf hfrag hv hK⟩
+  ⟨_, parseD_printD D op fmt K rest st hwf (fragD_of_wfD fmt K hwf) ha hv hK⟩
 
 /-- **C05, main theorem.** "printing each operation with its custom (declarative) assembly format and
-parsing the result yields IR equivalent to the original": for every well-formed format of the
-proved fragment (optional groups with anchors and else branches included) and every valid,
-group-consistent instance, `parse ∘ print` succeeds, leaves the continuation untouched and returns
+parsing the result yields IR equivalent to the original": for every well-formed format (optional groups
+with anchors and else branches, `operands`, `type(operands)`, `type(results)`, `functional-type(…)` with
+the parenthesised single function-typed result included) and every valid, group-consistent instance, `parse ∘ print` succeeds, leaves the continuation untouched and returns
 an instance equal to the original in all operand/type/region/successor segments and — modulo
 declared defaults — in properties and attributes. -/
 theorem decl_roundtrip (D : Defs) (fmt : List Dir) (op : OpInst) (K : List Cls) (rest : List Tok)
-    (hwf : wfD fmt K = true) (hfrag : fragD fmt = true) (hv : ValidD op fmt)
+    (hwf : wfD fmt K = true) (ha : wfA D fmt = true) (hv : ValidD D op fmt)
     (hslots : CoversSlots D fmt op) (hdicts : CoversDicts D fmt op) (hK : clsHd rest ∈ K) :
     ∃ op', roundtrip D fmt op rest = some (op', rest) ∧ Equiv D op' op := by
-  have h1 := parseD_printD D op fmt K rest {} hwf hfrag hv hK
+  have hfrag := fragD_of_wfD fmt K hwf
+  have h1 := parseD_printD D op fmt K rest {} hwf hfrag ha hv hK
   have h2 := build_replayD D op fmt K hwf hfrag hv hslots
   have h3 := dicts_replayD D op fmt K hwf hv hdicts
   refine ⟨{ operands := op.operands, operandTys := op.operandTys, resultTys := op.resultTys,
@@ -53,6 +61,18 @@ theorem decl_roundtrip (D : Defs) (fmt : List Dir) (op : OpInst) (K : List Cls) 
   · simp [roundtrip, h1, h2]
   · exact ⟨rfl, rfl, rfl, rfl, rfl, h3.1, h3.2⟩
 
+/-- **C05, main theorem with the format compiler's own checks as hypotheses.**  `accD D fmt` — the
+binding checks `FormatParser` performs (every operand/region/successor bound exactly once, every
+type bound at most once and bound or inferable, `operands`/`results` only where unambiguous) —
+replaces `wfA` and the coverage half of `CoversSlots`; what remains of `CoversSlots` are facts about
+the verified instance (`InstOK`: lengths, inferable types are the inferred ones). -/
+theorem decl_roundtrip_acc (D : Defs) (fmt : List Dir) (op : OpInst) (K : List Cls) (rest : List Tok)
+    (hwf : wfD fmt K = true) (hacc : accD D fmt = true) (hv : ValidD D op fmt)
+    (hinst : InstOK D op) (hdicts : CoversDicts D fmt op) (hK : clsHd rest ∈ K) :
+    ∃ op', roundtrip D fmt op rest = some (op', rest) ∧ Equiv D op' op :=
+  decl_roundtrip D fmt op K rest hwf (wfA_of_accD D fmt hacc) hv (coversSlots_of_accD D fmt op hacc hinst)
+    hdicts hK
+
 /-- formats without optional groups -/
 def noGroups : List Dir → Bool
   | [] => true
@@ -60,8 +80,8 @@ def noGroups : List Dir → Bool
   | .group _ _ _ _ :: _ => false
 
 /-- instance conditions of a group-free format: only the cardinalities -/
-theorem validD_of_noGroups (op : OpInst) (fmt : List Dir) (hn : noGroups fmt = true)
-    (h : ∀ d, Dir.s d ∈ fmt → okInstAll op d) : ValidD op fmt := by
+theorem validD_of_noGroups (D : Defs) (op : OpInst) (fmt : List Dir) (hn : noGroups fmt = true)
+    (h : ∀ d, Dir.s d ∈ fmt → okInstAll D op d) : ValidD D op fmt := by
   induction fmt with
   | nil => trivial
   | cons x xs ih =>
@@ -72,16 +92,16 @@ theorem validD_of_noGroups (op : OpInst) (fmt : List Dir) (hn : noGroups fmt = t
 /-- **C05, first stage (`…_partial`: no optional groups).**  Without optional groups the consistency
 hypothesis disappears: cardinalities alone suffice.  Full statement: `decl_roundtrip`. -/
 theorem decl_roundtrip_partial (D : Defs) (fmt : List Dir) (op : OpInst) (K : List Cls) (rest : List Tok)
-    (hwf : wfD fmt K = true) (hfrag : fragD fmt = true) (hn : noGroups fmt = true)
-    (hinst : ∀ d, Dir.s d ∈ fmt → okInstAll op d)
+    (hwf : wfD fmt K = true) (ha : wfA D fmt = true) (hn : noGroups fmt = true)
+    (hinst : ∀ d, Dir.s d ∈ fmt → okInstAll D op d)
     (hslots : CoversSlots D fmt op) (hdicts : CoversDicts D fmt op) (hK : clsHd rest ∈ K) :
     ∃ op', roundtrip D fmt op rest = some (op', rest) ∧ Equiv D op' op :=
-  decl_roundtrip D fmt op K rest hwf hfrag (validD_of_noGroups op fmt hn hinst) hslots hdicts hK
+  decl_roundtrip D fmt op K rest hwf ha (validD_of_noGroups D op fmt hn hinst) hslots hdicts hK
 
 /-- "parses to a different operation" never happens silently on the structural part: whatever the
 parsing state holds in an operand/type/region/successor slot is the operation's own list. -/
 theorem decl_slots_agree (D : Defs) (fmt : List Dir) (op : OpInst) (fam : Fam)
-    (hfrag : fragD fmt = true) (hv : ValidD op fmt) : AgreeF fam op (replayD D op fmt {}) :=
+    (hfrag : fragD fmt = true) (hv : ValidD D op fmt) : AgreeF fam op (replayD D op fmt {}) :=
   agreeF_replayD D op fmt {} fam hfrag hv (agreeF_init fam op)
 
 /-! ## non-vacuity: a format with a variadic operand, an optional group with else branch, a
@@ -117,7 +137,7 @@ example : printD exDefs exFmt exOp2 = [.punct ":", .kw "absent", .kw "p", .attr 
 
 example : roundtrip exDefs exFmt exOp2 [.punct "}"] = some (exOp2, [.punct "}"]) := by decide
 
-example : ValidD exOp exFmt := by
+example : ValidD exDefs exOp exFmt := by
   simp [ValidD, exFmt, exOp, okInstAll, okInst, tysMatch, GroupCons, presentS, seg, emptyS, unitSet, dictGet]
 
 example : CoversSlots exDefs exFmt exOp := by
@@ -159,9 +179,89 @@ example : CoversDicts exDefs exFmt exOp := by
       · simp [h1] at hg
 
 /-- the main theorem instantiated on the example (all hypotheses are jointly satisfiable) -/
-example (hv : ValidD exOp exFmt) (hs : CoversSlots exDefs exFmt exOp) (hd : CoversDicts exDefs exFmt exOp) :
+example (hv : ValidD exDefs exOp exFmt) (hs : CoversSlots exDefs exFmt exOp) (hd : CoversDicts exDefs exFmt exOp) :
     ∃ op', roundtrip exDefs exFmt exOp [.punct "}"] = some (op', [.punct "}"]) ∧ Equiv exDefs op' exOp :=
   decl_roundtrip exDefs exFmt exOp [.punct "}"] [.punct "}"] (by decide) (by decide) hv hs hd (by simp [clsHd, clsOf])
+
+/-! ## non-vacuity for the aggregate directives -/
+
+/-- `operands attr-dict `:` functional-type(operands, results)` (tosa/emitc style) over a definition
+with operands `(single, variadic)` and one result -/
+def aggFmt : List Dir :=
+  [ .s .operandsAll, .s (.attrDict false [] []), .s (.punct ":"), .s (.funcTy .operands .results) ]
+
+def aggDefs : Defs :=
+  { operandKinds := [.single, .var], operandFixed := [none, none], resultKinds := [.single],
+    resultFixed := [none], funcTys := [9] }
+
+/-- the single result has the function type `9`: printed in parentheses -/
+def aggOp : OpInst :=
+  { operands := [[1], [2, 3]], operandTys := [[7], [8, 8]], resultTys := [[9]], attrs := [("x", 4)] }
+
+def aggOp2 : OpInst := { operands := [[1], []], operandTys := [[7], []], resultTys := [[6]] }
+
+example : wfD aggFmt [.punct "}"] = true := by decide
+example : accD aggDefs aggFmt = true := by decide
+example : wfA aggDefs aggFmt = true := by decide
+
+example : printD aggDefs aggFmt aggOp =
+    [.val 1, .punct ",", .val 2, .punct ",", .val 3, .dict [("x", 4)], .punct ":", .punct "(", .ty 7,
+     .punct ",", .ty 8, .punct ",", .ty 8, .punct ")", .punct "->", .punct "(", .ty 9, .punct ")"] := by decide
+
+example : printD aggDefs aggFmt aggOp2 =
+    [.val 1, .punct ":", .punct "(", .ty 7, .punct ")", .punct "->", .ty 6] := by decide
+
+example : roundtrip aggDefs aggFmt aggOp [.punct "}"] = some (aggOp, [.punct "}"]) := by decide
+example : roundtrip aggDefs aggFmt aggOp2 [.punct "}"] = some (aggOp2, [.punct "}"]) := by decide
+
+example : ValidD aggDefs aggOp aggFmt := by
+  simp [ValidD, aggFmt, aggOp, aggDefs, okInstAll, okInst, okTy, tysMatch, fits, fitsK]
+
+example : InstOK aggDefs aggOp := by
+  refine ⟨rfl, rfl, rfl, rfl, rfl, ?_, ?_, ?_⟩
+  · intro i hi
+    have : i = 0 ∨ i = 1 := by simp [aggDefs] at hi; omega
+    rcases this with rfl | rfl <;> decide
+  · intro i t hi ht
+    have : i = 0 ∨ i = 1 := by simp [aggDefs] at hi; omega
+    rcases this with rfl | rfl <;> simp [aggDefs] at ht
+  · intro i t hi ht
+    have : i = 0 := by simp [aggDefs] at hi; omega
+    subst this; simp [aggDefs] at ht
+
+/-- `$a `,` $b attr-dict `:` type(operands) `->` type(results)` with optional `b` and variadic results -/
+def aggFmt2 : List Dir :=
+  [ .s (.operand 0 .single), .s (.kw "and"), .s (.operand 1 .opt), .s (.attrDict false [] []), .s (.punct ":"),
+    .s .operandTysAll, .s (.punct "->"), .s .resultTysAll ]
+
+def aggDefs2 : Defs :=
+  { operandKinds := [.single, .opt], operandFixed := [none, none], resultKinds := [.var], resultFixed := [none] }
+
+example : wfD aggFmt2 [.punct "}"] = true ∧ accD aggDefs2 aggFmt2 = true := by decide
+
+example : roundtrip aggDefs2 aggFmt2 { operands := [[1], []], operandTys := [[7], []], resultTys := [[]] } [.punct "}"] =
+    some ({ operands := [[1], []], operandTys := [[7], []], resultTys := [[]] }, [.punct "}"]) := by decide
+
+example : roundtrip aggDefs2 aggFmt2 { operands := [[1], [2]], operandTys := [[7], [8]], resultTys := [[5, 6]] }
+    [.punct "}"] =
+    some ({ operands := [[1], [2]], operandTys := [[7], [8]], resultTys := [[5, 6]] }, [.punct "}"]) := by decide
+
+/-- the side condition `wfA` is needed: with two variadic operand definitions (and no same-size option)
+the flat `operands` list does not determine the segments; the format compiler refuses the format
+("'operands' is ambiguous with multiple variadic operands") and so do `accD` / `wfA`. -/
+theorem operands_ambiguous_counterexample :
+    let D : Defs := { operandKinds := [.var, .var], operandFixed := [some 1, some 1] }
+    let fmt : List Dir := [.s .operandsAll, .s (.attrDict false [] [])]
+    let op : OpInst := { operands := [[4], []], operandTys := [[1], []] }
+    wfD fmt [.punct "}"] = true ∧ wfA D fmt = false ∧ accD D fmt = false ∧
+    roundtrip D fmt op [.punct "}"] = none := by decide
+
+/-- the repaired parenthesisation is needed: printing a single function-typed result WITHOUT parentheses
+(the pinned code before the repair) gives a token stream in which `parse_optional_punctuation("(")`
+tears the opaque type token apart; at token level the unparenthesised stream is parsed with the result
+type taken as is, but the real text `(i32) -> (i32) -> i64` is read as result type `i32` followed by
+garbage.  The model prints the parentheses (`aggOp` above). -/
+example : (printS aggDefs aggOp (.funcTy .operands .results)).drop 8 = [.punct "(", .ty 9, .punct ")"] := by decide
 
 /-! ## the side conditions are needed: formats the xDSL format compiler accepts but `wfD` rejects -/
 
